@@ -2,7 +2,7 @@
    Strings travel as <length> followed by the code points.  Result encoding: 0 :: values (normal), [1; exn code] (raise),
    [2] (outside the modelled fragment), [9] (bad call). *)
 From Coq Require Import ZArith List Bool.
-From PV Require Import Lib.PyBase Spec.Cal Model.FormatterBase Gen.FormatterTables Gen.LocaleTables Model.Formatter Model.FormatterParse.
+From PV Require Import Lib.PyBase Spec.Cal Model.FormatterBase Gen.FormatterTables Gen.LocaleTables Model.Formatter Model.FormatterParse Model.FormatterSession.
 Import ListNotations.
 Open Scope Z_scope.
 
@@ -47,6 +47,91 @@ Definition of_validated (r : result validated) : list Z :=
     [0; y; m; d; hh; mi; ss; us] ++ match tz with None => [0] | Some (TzFixed o) => [1; o] | Some (TzNamed n) => 2 :: n end
   | Raise E_OutOfFuel => [2]
   | Raise e => [1; exn_code e]
+  end.
+
+(* parse(format(dt)) : 0 :: len :: text ++ fields | 3 :: len :: text ++ [exn] (parse raised) | [1; exn] (format raised) *)
+Definition of_round (r : result (str * result validated)) : list Z :=
+  match r with
+  | Ok (s, v) => match of_validated v with
+                 | 0 :: f => 0 :: Z.of_nat (length s) :: s ++ f
+                 | 1 :: e => 3 :: Z.of_nat (length s) :: s ++ e
+                 | other => other
+                 end
+  | Raise E_OutOfFuel => [2]
+  | Raise e => [1; exn_code e]
+  end.
+
+(* ---- a session (Model/FormatterSession.v) as a flat integer list.  A string is  len c1 .. clen ; an optional locale is 0 or 1 <string>.
+   operations:  1 <name> set_locale | 2 get_locale | 3 <loc> <datetime> <fmt>  format | 4 <loc> nz <zones> <datetime> <fmt>  parse(format())
+                5 <loc> nz <zones> <text> <fmt>  parse *)
+Definition take_loc (l : list Z) : option (option str * list Z) :=
+  match l with
+  | 0 :: r => Some (None, r)
+  | 1 :: r => match take_str r with Some (s, r') => Some (Some s, r') | None => None end
+  | _ => None
+  end.
+Definition take_op (l : list Z) : option (fop * list Z) :=
+  match l with
+  | 1 :: r => match take_str r with Some (n, r') => Some (FSet n, r') | None => None end
+  | 2 :: r => Some (FGet, r)
+  | 3 :: r =>
+    match take_loc r with
+    | Some (loc, r1) =>
+      match take_dt r1 with
+      | Some (t, r2) => match take_str r2 with Some (fmt, r3) => Some (FFormat loc t fmt, r3) | None => None end
+      | None => None end
+    | None => None end
+  | 4 :: r =>
+    match take_loc r with
+    | Some (loc, nz :: r1) =>
+      match take_strs (Z.to_nat nz) r1 with
+      | Some (zones, r2) =>
+        match take_dt r2 with
+        | Some (t, r3) => match take_str r3 with Some (fmt, r4) => Some (FRound loc zones t fmt, r4) | None => None end
+        | None => None end
+      | None => None end
+    | _ => None end
+  | 5 :: r =>
+    match take_loc r with
+    | Some (loc, nz :: r1) =>
+      match take_strs (Z.to_nat nz) r1 with
+      | Some (zones, r2) =>
+        match take_strs 2 r2 with
+        | Some ([time; fmt], r3) => Some (FParse loc zones time fmt, r3)
+        | _ => None end
+      | None => None end
+    | _ => None end
+  | _ => None
+  end.
+Fixpoint decode_ops (fuel : nat) (l : list Z) : option (list fop) :=
+  match l with
+  | [] => Some []
+  | _ =>
+    match fuel with
+    | O => None
+    | S f =>
+      match take_op l with
+      | Some (o, r) => match decode_ops f r with Some ops => Some (o :: ops) | None => None end
+      | None => None
+      end
+    end
+  end.
+
+Definition of_out (o : fout) : list Z :=
+  match o with
+  | OUnit (Ok _) => [0]
+  | OUnit (Raise E_OutOfFuel) => [2]
+  | OUnit (Raise e) => [1; exn_code e]
+  | OStr r => of_res r
+  | OVal v => of_validated v
+  | ORound r => of_round r
+  end.
+
+(* output number k of the session, started from the default configuration of a fresh process *)
+Definition session_out (rs : bool) (now : pnow) (k : Z) (code : list Z) : list Z :=
+  match decode_ops (length code) code with
+  | Some ops => if k <? 0 then [9] else match nth_error (run rs now initial ops) (Z.to_nat k) with Some o => of_out o | None => [9] end
+  | None => [9]
   end.
 
 Definition dispatch (fn : Z) (args : list Z) : list Z :=
@@ -94,6 +179,7 @@ Definition dispatch (fn : Z) (args : list Z) : list Z :=
           | None => [9] end
         | None => [9] end
       | None => [9] end
+  | 8 (* fmt_session *), k :: rs :: ny :: nm :: nd :: code => session_out (negb (rs =? 0)) (mknow ny nm nd) k code
   | 4 (* fmt_render_dec *), [w; sl; n] => 0 :: render_dec w sl n
   | 5 (* fmt_py_int *), _ => match py_int args with Some v => [0; v] | None => [1; 1] end
   | 6 (* fmt_re_escape *), _ => 0 :: re_escape args
